@@ -112,6 +112,7 @@ def table_case(draw):
         "width_delta": draw(st.one_of(st.none(), st.none(), st.none(), st.integers(0, 30))), "min_width_delta": draw(st.one_of(st.none(), st.none(), st.none(), st.integers(-5, 30))),
         "title_justify": draw(st.sampled_from(["left", "center", "right"])),
         "prelude": draw(st.sampled_from([0, 0, 1, 2])),
+        "columns_as_objects": draw(st.sampled_from([False, False, True])),
     }
     if node["title"]:
         node["title"] = "".join(narrow[-1 - i] for i in range(draw(st.integers(1, 5))))
@@ -128,15 +129,22 @@ def build_table(n, W, smin, annotations=True):
 
     width = None if n["width_delta"] is None else min(W, smin + n["width_delta"])  # a table width beyond the available width is an explicit request to exceed it
     min_width = None if n["min_width_delta"] is None else max(1, smin + n["min_width_delta"])
+    implicit = n.get("implicit", 0)
+    declared = len(n["cols"]) - implicit
+    headers = []
+    if n.get("columns_as_objects"):
+        # the documented alternative: Column objects given positionally to the constructor
+        from rich.table import Column
+
+        headers = [Column(Text(c["header"]), Text(c["footer"]), justify=c["justify"], overflow=c["overflow"], ratio=c["ratio"], max_width=c["max_width"]) for c in n["cols"][:declared]]
     t = Table(
+        *headers,
         box=getattr(rbox, n["box"]) if n["box"] else None, show_header=n["show_header"], show_footer=n["show_footer"], show_edge=n["show_edge"],
         show_lines=n["show_lines"], leading=n["leading"], padding=tuple(n["padding"]), pad_edge=n["pad_edge"], collapse_padding=n["collapse_padding"],
         expand=n["expand"], title=Text(n["title"]) if (n["title"] and annotations) else None, caption=Text(n["caption"]) if (n["caption"] and annotations) else None,
         width=width, min_width=min_width, row_styles=n["row_styles"], title_justify=n["title_justify"],
     )
-    implicit = n.get("implicit", 0)
-    declared = len(n["cols"]) - implicit
-    for c in n["cols"][:declared]:
+    for c in ([] if headers else n["cols"][:declared]):
         t.add_column(Text(c["header"]), Text(c["footer"]), justify=c["justify"], overflow=c["overflow"], ratio=c["ratio"], max_width=c["max_width"])
     for r in n["rows"]:
         cells = r["cells"][:declared] if r.get("short") else r["cells"]
